@@ -14,14 +14,17 @@ import (
 	"bytes"
 	"errors"
 	"fmt"
+	"math/big"
 	"sort"
 
+	"github.com/cronokirby/saferith"
 	"github.com/fxamacker/cbor/v2"
 	"github.com/taurusgroup/multi-party-sig/pkg/ecdsa"
 	"github.com/taurusgroup/multi-party-sig/pkg/party"
 	"github.com/taurusgroup/multi-party-sig/pkg/protocol"
 	"github.com/taurusgroup/multi-party-sig/pkg/taproot"
 	"github.com/taurusgroup/multi-party-sig/protocols/cmp"
+	cmpkeygen "github.com/taurusgroup/multi-party-sig/protocols/cmp/keygen"
 	"github.com/taurusgroup/multi-party-sig/protocols/doerner"
 	"github.com/taurusgroup/multi-party-sig/protocols/frost"
 )
@@ -94,6 +97,11 @@ type tamperer struct {
 	// forceHow > 0: the byte-string malformation is fixed (case number of the switch in mutate) and no content is
 	// substituted wholesale - used where the scenario needs a well-formed but WRONG value
 	forceHow int
+	// impersonateRound > 0: the cheater's broadcast of that round is replaced, for every recipient, by the whole content
+	// of ANOTHER party's broadcast of the same round (a proof-carrying message replayed under another sender's name)
+	impersonateRound int
+	donor            *protocol.Message
+	impersonated     int
 }
 
 func pathStr(p path) string {
@@ -224,6 +232,25 @@ func (t *tamperer) filter(m *protocol.Message, to party.ID) []*protocol.Message 
 		return []*protocol.Message{m}
 	}
 	t.seen = append(t.seen, m)
+	if t.impersonateRound > 0 && m.Broadcast && int(m.RoundNumber) == t.impersonateRound {
+		if t.donor == nil {
+			for _, o := range t.others {
+				if o.Broadcast && o.RoundNumber == m.RoundNumber && o.From != t.cheater {
+					t.donor = o
+					break
+				}
+			}
+		}
+		if t.donor != nil {
+			cp := *m
+			cp.Data = append([]byte{}, t.donor.Data...)
+			if t.impersonated == 0 {
+				t.applied = append(t.applied, fmt.Sprintf("r%d: whole broadcast content replaced by that of %s (impersonation)", m.RoundNumber, t.donor.From))
+			}
+			t.impersonated = t.impersonateRound
+			return []*protocol.Message{&cp}
+		}
+	}
 	if t.budget <= 0 || t.c.Intn(3) != 0 {
 		return []*protocol.Message{m}
 	}
@@ -253,7 +280,10 @@ func culpritsJ(res sessionResult, honest []party.ID) J {
 	return out
 }
 
-func tamperKeygen(c *Ctx, kind string) {
+func tamperKeygen(c *Ctx, kind string) { tamperKeygenX(c, kind, false) }
+
+// tamperKeygenX: forceImp = always the impersonation deviation (suite sess-impersonate)
+func tamperKeygenX(c *Ctx, kind string, forceImp bool) {
 	n := 3 + c.Intn(2)
 	t := 1 + c.Intn(n-1)
 	ids := genIDs(c, n)
@@ -267,6 +297,13 @@ func tamperKeygen(c *Ctx, kind string) {
 	}
 	cheater := ids[c.Intn(n)]
 	tm := &tamperer{c: c, cheater: cheater, budget: 1 + c.Intn(2)}
+	if (kind == "frost" || kind == "frost-taproot") && (forceImp || c.Intn(3) == 0) {
+		// FROST keygen round 2 carries a proof of knowledge bound to its sender: replay another party's broadcast under
+		// the cheater's name (the cheater is the last party in id order, so the others' broadcasts are known when its own is routed)
+		sorted := party.NewIDSlice(ids)
+		cheater = sorted[len(sorted)-1]
+		tm = &tamperer{c: c, cheater: cheater, budget: 0, impersonateRound: 2}
+	}
 	sid := c.Bytes(8)
 	hs := map[party.ID]protocol.Handler{}
 	for i, id := range ids {
@@ -315,6 +352,10 @@ func tamperKeygen(c *Ctx, kind string) {
 	}
 	in := J{"phase": "keygen", "kind": kind, "n": n, "t": t, "ids": idsHex(ids), "cheater": hx([]byte(cheater)), "tampering": tm.applied,
 		"parties": parties, "blame": culpritsJ(res, honest), "honest": idsHex(honest)}
+	if tm.impersonated > 0 {
+		in["impersonated_round"] = tm.impersonated
+		c.Count("sess/tamper/impersonation")
+	}
 	var impl interface{} = J{"ok": true}
 	if res.Panic != "" {
 		impl = J{"outcome": "PANIC", "detail": res.Panic}
@@ -524,7 +565,82 @@ func tamperOnlineRun(c *Ctx, m0 *material, signers []party.ID, pres map[party.ID
 	c.Count("sess/tamper/sign/cmp-presign-online")
 }
 
+// tamperCmpKeygenShare: CMP key generation in which one dealer sends one recipient a WELL-FORMED encryption of a value
+// outside [0, q) instead of its share (-5, q+5, share+q ...): the plaintext is what the recipient's range / VSS checks
+// are for. An honest recipient must not finish with a share that does not match the public table.
+func tamperCmpKeygenShare(c *Ctx) {
+	n, t := 3, 1+c.Intn(2)
+	ids := genIDs(c, n)
+	sorted := party.NewIDSlice(ids)
+	cheater, victim := sorted[n-1], sorted[c.Intn(n-1)]
+	q := new(big.Int).SetBytes(secp.Order().Bytes())
+	var pt *big.Int
+	switch c.Intn(3) {
+	case 0:
+		pt = big.NewInt(-5)
+	case 1:
+		pt = new(big.Int).Add(q, big.NewInt(5))
+	default:
+		pt = new(big.Int).Add(new(big.Int).Mul(q, big.NewInt(int64(2+c.Intn(5)))), new(big.Int).SetBytes(c.Bytes(31)))
+	}
+	plaintext := new(saferith.Int).SetBig(pt, pt.BitLen()+1)
+	sid := c.Bytes(8)
+	hs := map[party.ID]protocol.Handler{}
+	for _, id := range ids {
+		h, err := protocol.NewMultiHandler(cmp.Keygen(secp, id, ids, t, nil), sid)
+		if err != nil {
+			return
+		}
+		hs[id] = h
+	}
+	var victimN *saferith.Modulus
+	applied := []string{}
+	filter := func(m *protocol.Message, to party.ID) []*protocol.Message {
+		if m.From == victim && m.Broadcast && m.RoundNumber == 3 && victimN == nil {
+			victimN = cmpkeygen.VerifBroadcast3N(secp, m.Data)
+		}
+		if m.From == cheater && !m.Broadcast && m.RoundNumber == 4 && to == victim {
+			if d := cmpkeygen.VerifReencryptShare(m.Data, victimN, plaintext); d != nil {
+				cp := *m
+				cp.Data = d
+				applied = append(applied, fmt.Sprintf("r4->%s: /Share = Enc(%s) (outside [0,q))", to, pt.Text(16)))
+				return []*protocol.Message{&cp}
+			}
+		}
+		return []*protocol.Message{m}
+	}
+	res := runSessions(c, hs, "fifo", filter)
+	honest := []party.ID{}
+	parties := []J{}
+	for _, id := range ids {
+		if id == cheater {
+			continue
+		}
+		honest = append(honest, id)
+		if v, ok := res.Results[id].(*cmp.Config); ok {
+			parties = append(parties, cmpCfgJ(v))
+		}
+	}
+	in := J{"phase": "keygen", "kind": "cmp", "n": n, "t": t, "ids": idsHex(ids), "cheater": hx([]byte(cheater)), "tampering": applied,
+		"parties": parties, "blame": culpritsJ(res, honest), "honest": idsHex(honest)}
+	var impl interface{} = J{"ok": true}
+	if res.Panic != "" {
+		impl = J{"outcome": "PANIC", "detail": res.Panic}
+	}
+	c.Emit("tamper", in, impl)
+	c.Count("sess/tamper/keygen/cmp-share-range")
+}
+
 func init() {
+	// C09: every proof-carrying message replayed under another sender's name (FROST keygen round 2: the only broadcast
+	// of the shipped protocols whose proof would verify for another party if it were not bound to its maker)
+	register("sess-impersonate", func(c *Ctx) {
+		seedCryptoRand(c.Seed*7919 + 4242)
+		defer restoreCryptoRand()
+		for i := 0; i < c.N; i++ {
+			tamperKeygenX(c, []string{"frost", "frost-taproot"}[i%2], true)
+		}
+	})
 	register("sess-tamper", func(c *Ctx) {
 		// all protocol randomness comes from crypto/rand.Reader: a seeded stream makes the sessions (and with them every
 		// later seeded choice of the generator) reproducible
@@ -540,6 +656,8 @@ func init() {
 				tamperKeygen(c, k)
 			}
 		}
+		// CMP keygen with a well-formed encryption of an out-of-range share (once per run: ~10 s)
+		tamperCmpKeygenShare(c)
 		// a slice of CMP (sign, presign, keygen): seconds per session
 		cmpRuns := c.N / 25
 		if c.Tier == "thorough" {
